@@ -6,6 +6,7 @@ import ACModel.Driver.Chained
 import ACModel.Driver.Select
 import ACModel.Driver.Pipeline
 import ACModel.Driver.Multi
+import ACModel.Driver.History
 /-
   acdriver: JSON-lines driver around the executable model and the specification predicates.
   One request per line on stdin, one response per line on stdout.
@@ -39,6 +40,7 @@ def dispatch (j : Json) : R Json := do
   | "judge.C04" => DriverDisc.judgeC04 j
   | "judge.C05" => DriverDisc.judgeC05 j
   | "multi.assemble" => DriverMulti.assembleReq j
+  | "judge.history" => DriverHist.judge j
   | o => throw s!"unknown request {o}"
 
 def handleLine (line : String) : String :=
